@@ -147,6 +147,259 @@ pub fn run(op: &str, args: &[String]) -> Option<String> {
             let st = it.state();
             format!("OK:{};{}", show_items(st.stack()), st.codeseparator_offset)
         }
+        "interp.seq" => {
+            // interp.seq <tx> <idx> <ext> <key> <steps>: ONE Transaction object (and one persisted Interpreter) driven through a
+            // little program; steps joined by `,`, fields inside a step by `.`:
+            //   r  run a fresh interpreter on the object            i  keep an interpreter made from the object now
+            //   n<k>  step the kept interpreter k times             R  run the kept interpreter to the end
+            //   v<dec> l<desc> u<desc>  set_satoshis / set_locking_script / set_unlocking_script of input idx (get_input + set_input)
+            //   V<dec> L<dec>  set_version / set_nlocktime          o<k>.<dec>  value of output k (set_output)
+            //   q<k>.<dec>  sequence of input k (set_input)          a<dec>  add_output(value, OP_1)
+            //   c  replace the object by its clone()                 s  to_bytes / from_bytes, extended fields copied over
+            //   g|G|K<flag>.<value>.<sub>  Transaction::sign with the EXPLICIT value and subscript (G: unlocking := <sig>; K: <sig> <pubkey>)
+            //   p<flag>.<value>.<sub>  Transaction::sighash_preimage
+            //   t<sig>.<pubkey>.<preimage>  SighashSignature::from_bytes + Transaction::verify / _verify(false) / _verify(true)
+            // -> OK:<obs>/<obs>/...;<c>;<c>...   one observation per observing step; one coarse letter per run (A = single 01,
+            //    R = error or single false element, O = anything else)
+            if args.len() != 5 {
+                return Some("BADARG".into());
+            }
+            let (txb, idx, ext) = match (arg_bytes(args, 0), arg_u64(args, 1), args.get(2)) {
+                (Some(a), Some(b), Some(c)) => (a, b as usize, c.clone()),
+                _ => return Some("BADARG".into()),
+            };
+            let sk = {
+                let k = args[3].as_str();
+                let (unc, h) = match k.strip_prefix('u') {
+                    Some(r) => (true, r),
+                    None => (false, k),
+                };
+                match hex::decode(h).ok().and_then(|b| PrivateKey::from_bytes(&b).ok()) {
+                    Some(s) => s.compress_public_key(!unc),
+                    None => return Some("BADARG".into()),
+                }
+            };
+            let pk = PublicKey::from_private_key(&sk);
+            let mut tx = match Transaction::from_bytes(&txb) {
+                Ok(t) => t,
+                Err(_) => return Some("ERR".into()),
+            };
+            match apply_ext(&mut tx, &ext) {
+                None => return Some("BADARG".into()),
+                Some(Err(_)) => return Some("ERR".into()),
+                Some(Ok(())) => {}
+            }
+            let mut kept: Option<Interpreter> = None;
+            let mut obs: Vec<String> = Vec::new();
+            let mut coarse: Vec<char> = Vec::new();
+            let render = |r: Result<(), ()>, it: &Interpreter, obs: &mut Vec<String>, coarse: &mut Vec<char>| match r {
+                Ok(()) => {
+                    let st = it.state();
+                    let items: Vec<String> = st.stack().iter().map(|x| show_bytes(x)).collect();
+                    obs.push(format!("{}@{}", items.join("^"), st.codeseparator_offset));
+                    let one = st.stack().len() == 1;
+                    coarse.push(if one && st.stack()[0] == vec![1u8] {
+                        'A'
+                    } else if one && st.stack()[0].is_empty() {
+                        'R'
+                    } else {
+                        'O'
+                    });
+                }
+                Err(()) => {
+                    obs.push("E".into());
+                    coarse.push('R');
+                }
+            };
+            let num = |s: &str| s.parse::<u64>().ok();
+            for step in args[4].split(',') {
+                if step.is_empty() {
+                    return Some("BADARG".into());
+                }
+                let (op1, rest) = step.split_at(1);
+                let f: Vec<&str> = rest.split('.').collect();
+                match op1 {
+                    "r" => match Interpreter::from_transaction(&tx, idx) {
+                        Ok(mut it) => {
+                            let r = it.run().map_err(|_| ());
+                            render(r, &it, &mut obs, &mut coarse);
+                        }
+                        Err(_) => {
+                            obs.push("E".into());
+                            coarse.push('R');
+                        }
+                    },
+                    "i" => kept = Interpreter::from_transaction(&tx, idx).ok(),
+                    "n" => {
+                        let k = match num(rest) {
+                            Some(k) if k <= 1000 => k,
+                            _ => return Some("BADARG".into()),
+                        };
+                        if let Some(it) = kept.as_mut() {
+                            for _ in 0..k {
+                                let _ = it.next();
+                            }
+                        }
+                    }
+                    "R" => match kept.as_mut() {
+                        Some(it) => {
+                            let r = it.run().map_err(|_| ());
+                            let snapshot = it.clone();
+                            render(r, &snapshot, &mut obs, &mut coarse);
+                        }
+                        None => {
+                            obs.push("E".into());
+                            coarse.push('R');
+                        }
+                    },
+                    "v" => {
+                        let v = match num(rest) {
+                            Some(v) => v,
+                            None => return Some("BADARG".into()),
+                        };
+                        if let Some(mut i) = tx.get_input(idx) {
+                            i.set_satoshis(v);
+                            tx.set_input(idx, &i);
+                        }
+                    }
+                    "l" | "u" => {
+                        let sc = match expand(rest).map(|b| Script::from_bytes(&b)) {
+                            Some(Ok(s)) => s,
+                            Some(Err(_)) => return Some("ERR".into()),
+                            None => return Some("BADARG".into()),
+                        };
+                        if let Some(mut i) = tx.get_input(idx) {
+                            if op1 == "l" {
+                                i.set_locking_script(&sc)
+                            } else {
+                                i.set_unlocking_script(&sc)
+                            }
+                            tx.set_input(idx, &i);
+                        }
+                    }
+                    "V" | "L" => match num(rest) {
+                        Some(v) if v <= u32::MAX as u64 => {
+                            if op1 == "V" {
+                                tx.set_version(v as u32);
+                            } else {
+                                tx.set_nlocktime(v as u32);
+                            }
+                        }
+                        _ => return Some("BADARG".into()),
+                    },
+                    "o" | "q" => {
+                        if f.len() != 2 {
+                            return Some("BADARG".into());
+                        }
+                        let (k, v) = match (num(f[0]), num(f[1])) {
+                            (Some(k), Some(v)) if k <= 1000 => (k as usize, v),
+                            _ => return Some("BADARG".into()),
+                        };
+                        if op1 == "o" {
+                            if let Some(o) = tx.get_output(k) {
+                                tx.set_output(k, &bsv::TxOut::new(v, &o.get_script_pub_key()));
+                            }
+                        } else {
+                            if v > u32::MAX as u64 {
+                                return Some("BADARG".into());
+                            }
+                            if let Some(mut i) = tx.get_input(k) {
+                                i.set_sequence(v as u32);
+                                tx.set_input(k, &i);
+                            }
+                        }
+                    }
+                    "a" => match num(rest) {
+                        Some(v) => tx.add_output(&bsv::TxOut::new(v, &Script::from_bytes(&[0x51]).unwrap())),
+                        None => return Some("BADARG".into()),
+                    },
+                    "c" => tx = tx.clone(),
+                    "s" => {
+                        let b = match tx.to_bytes() {
+                            Ok(b) => b,
+                            Err(_) => return Some("ERR".into()),
+                        };
+                        let mut t2 = match Transaction::from_bytes(&b) {
+                            Ok(t) => t,
+                            Err(_) => return Some("ERR".into()),
+                        };
+                        for k in 0..tx.get_ninputs() {
+                            if let (Some(old), Some(mut new)) = (tx.get_input(k), t2.get_input(k)) {
+                                if let Some(v) = old.get_satoshis() {
+                                    new.set_satoshis(v);
+                                }
+                                if let Some(l) = old.get_locking_script() {
+                                    new.set_locking_script(&l);
+                                }
+                                t2.set_input(k, &new);
+                            }
+                        }
+                        tx = t2;
+                    }
+                    "g" | "G" | "K" | "p" => {
+                        if f.len() != 3 {
+                            return Some("BADARG".into());
+                        }
+                        let (fl, v, sub) = match (num(f[0]), num(f[1]), expand(f[2])) {
+                            (Some(a), Some(b), Some(c)) if a <= 255 => (a as u8, b, c),
+                            _ => return Some("BADARG".into()),
+                        };
+                        let flag = match SigHash::try_from(fl) {
+                            Ok(x) => x,
+                            Err(_) => return Some("BADARG".into()),
+                        };
+                        let sub = match Script::from_bytes(&sub) {
+                            Ok(s) => s,
+                            Err(_) => return Some("ERR".into()),
+                        };
+                        if op1 == "p" {
+                            match tx.sighash_preimage(flag, idx, &sub, v) {
+                                Ok(p) => obs.push(show_bytes(&p)),
+                                Err(_) => obs.push("E".into()),
+                            }
+                        } else {
+                            match tx.sign(&sk, flag, idx, &sub, v).and_then(|s| s.to_bytes()) {
+                                Ok(sb) => {
+                                    obs.push(hex::encode(&sb));
+                                    if op1 != "g" {
+                                        if let Some(mut i) = tx.get_input(idx) {
+                                            let mut b = push_of(&sb).unwrap_or_default();
+                                            if op1 == "K" {
+                                                b.extend(pk.to_bytes().ok().and_then(|x| push_of(&x)).unwrap_or_default());
+                                            }
+                                            if let Ok(sc) = Script::from_bytes(&b) {
+                                                i.set_unlocking_script(&sc);
+                                                tx.set_input(idx, &i);
+                                            }
+                                        }
+                                    }
+                                }
+                                Err(_) => obs.push("E".into()),
+                            }
+                        }
+                    }
+                    "t" => {
+                        if f.len() != 3 {
+                            return Some("BADARG".into());
+                        }
+                        let (sg, pkb, pre) = match (expand(f[0]), expand(f[1]), expand(f[2])) {
+                            (Some(a), Some(b), Some(c)) => (a, b, c),
+                            _ => return Some("BADARG".into()),
+                        };
+                        match (SighashSignature::from_bytes(&sg, &pre), PublicKey::from_bytes(&pkb)) {
+                            (Ok(s), Ok(p)) => {
+                                let b = |x: bool| if x { '1' } else { '0' };
+                                obs.push(format!("{}{}{}", b(tx.verify(&p, &s)), b(tx._verify(&p, &s, false)), b(tx._verify(&p, &s, true))));
+                            }
+                            _ => obs.push("E".into()),
+                        }
+                    }
+                    _ => return Some("BADARG".into()),
+                }
+            }
+            let cs: Vec<String> = coarse.iter().map(|c| c.to_string()).collect();
+            format!("OK:{};{}", obs.join("/"), if cs.is_empty() { "-".to_string() } else { cs.join(";") })
+        }
         "spend.build" => {
             if args.len() != 8 {
                 return Some("BADARG".into());
